@@ -5,6 +5,7 @@ import (
 	"context"
 	"fmt"
 	"math/rand"
+	"os"
 	"strings"
 
 	"github.com/tokenized/pkg/bitcoin"
@@ -69,6 +70,21 @@ func (g *genState) mkHeader(parent *Node, bits uint32) *wire.BlockHeader {
 	} else {
 		g.rng.Read(hd.MerkleRoot[:])
 	}
+	return hd
+}
+
+func (g *genState) mkHeaderRaw(prev Hash, ts uint32, bits uint32) *wire.BlockHeader {
+	hd := &wire.BlockHeader{Version: 1, PrevBlock: prev, Timestamp: ts, Bits: bits, Nonce: g.rng.Uint32()}
+	n := 1 + g.rng.Intn(5)
+	txids := make([]Hash, n)
+	for i := range txids {
+		g.rng.Read(txids[i][:])
+	}
+	hd.MerkleRoot = RefMerkleRoot(txids)
+	if g.blocks == nil {
+		g.blocks = map[Hash][]Hash{}
+	}
+	g.blocks[*hd.BlockHash()] = txids
 	return hd
 }
 
@@ -246,9 +262,14 @@ func (g *genState) step() {
 		for x := range m.Invalid {
 			g.e.Unmark(x)
 			g.shape.WriteString("U;")
-			// re-submit the unmarked header if we have it
+			// re-submit the unmarked header if we have it (or keep it for a later retry, possibly
+			// after a Save/Load, when it must be acceptable again)
 			if n := m.Ever[x]; n != nil {
-				g.submit(n.Header, "resubmit-after-unmark")
+				if g.rng.Intn(2) == 0 {
+					g.submit(n.Header, "resubmit-after-unmark")
+				} else if len(g.refused) < 8 {
+					g.refused = append(g.refused, n.Header)
+				}
 			} else {
 				for _, hd := range g.refused {
 					if *hd.BlockHash() == x {
@@ -454,13 +475,39 @@ func RunHistory(ctx context.Context, rng *rand.Rand, gc GenCfg, opt Options) *Ge
 	if len(gc.BaseLens) > 0 {
 		base = gc.BaseLens[rng.Intn(len(gc.BaseLens))]
 	}
-	for i := 0; i < base && !e.Failed(); i++ {
-		g.submit(g.mkHeader(g.model().Tip, 0x1d00ffff), "base")
+	if v := os.Getenv("VERIF_FORCE_BASE"); v != "" { // debugging aid
+		fmt.Sscan(v, &base)
+	}
+	if base > 120 {
+		// long base (crossing 1000-header file boundaries): built in bulk, sampled height reads
+		e.Opt.HeightSel = SparseHeights
+		var hs []*wire.BlockHeader
+		tip := g.model().Tip
+		prevHash, ts := tip.Hash, tip.Header.Timestamp
+		for i := 0; i < base; i++ {
+			ts += 600
+			hd := &wire.BlockHeader{Version: 1, PrevBlock: prevHash, Timestamp: ts, Bits: 0x1d00ffff, Nonce: rng.Uint32()}
+			rng.Read(hd.MerkleRoot[:])
+			if gc.MerkleBlocks {
+				hd = g.mkHeaderRaw(prevHash, ts, 0x1d00ffff)
+			}
+			hs = append(hs, hd)
+			prevHash = *hd.BlockHash()
+		}
+		e.BulkExtend(hs)
+		fmt.Fprintf(&g.shape, "bulk%d;", base)
+	} else {
+		for i := 0; i < base && !e.Failed(); i++ {
+			g.submit(g.mkHeader(g.model().Tip, 0x1d00ffff), "base")
+		}
 	}
 	if gc.EarlySave && !e.Failed() {
 		e.Save()
 	}
 	nops := gc.MinOps + rng.Intn(gc.MaxOps-gc.MinOps+1)
+	if base > 120 && nops > 14 {
+		nops = 14 // every op on a long chain reads pruned heights back from the header files
+	}
 	for i := 0; i < nops && !e.Failed() && len(e.live()) > 0; i++ {
 		g.step()
 	}
@@ -473,7 +520,26 @@ func RunHistory(ctx context.Context, rng *rand.Rand, gc GenCfg, opt Options) *Ge
 // ReplayTrace executes a recorded trace literally.
 func ReplayTrace(ctx context.Context, tr Trace, opt Options) (*Engine, error) {
 	e := NewEngine(ctx, tr.MaxDepth, opt)
-	for _, op := range tr.Ops {
+	// a long run of base headers is replayed in bulk, exactly as it was generated
+	nb := 0
+	for nb < len(tr.Ops) && tr.Ops[nb].K == "submit" && tr.Ops[nb].Note == "base" {
+		nb++
+	}
+	ops := tr.Ops
+	if nb > 120 {
+		var hs []*wire.BlockHeader
+		for _, op := range tr.Ops[:nb] {
+			hd, err := HdrFromHex(op.Hdr)
+			if err != nil {
+				return nil, err
+			}
+			hs = append(hs, hd)
+		}
+		e.Opt.HeightSel = SparseHeights
+		e.BulkExtend(hs)
+		ops = tr.Ops[nb:]
+	}
+	for _, op := range ops {
 		if len(e.live()) == 0 {
 			break
 		}
@@ -545,10 +611,19 @@ func Minimise(ctx context.Context, tr Trace, opt Options, prop, sig string, budg
 		return tr
 	}
 	tries := 0
-	chunk := len(cur.Ops) / 2
+	keep := 0 // a bulk base prefix is kept as it is
+	for keep < len(cur.Ops) && cur.Ops[keep].K == "submit" && cur.Ops[keep].Note == "base" {
+		keep++
+	}
+	if keep <= 120 {
+		keep = 0
+	} else if budget > 10 {
+		budget = 10 // each replay of a long chain costs seconds
+	}
+	chunk := (len(cur.Ops) - keep) / 2
 	for chunk >= 1 && tries < budget {
 		removed := false
-		for start := 0; start+chunk <= len(cur.Ops) && tries < budget; {
+		for start := keep; start+chunk <= len(cur.Ops) && tries < budget; {
 			cand := Trace{MaxDepth: cur.MaxDepth}
 			cand.Ops = append(cand.Ops, cur.Ops[:start]...)
 			cand.Ops = append(cand.Ops, cur.Ops[start+chunk:]...)
